@@ -15,13 +15,13 @@ Definition chunks_spec (n : nat) (xs : list Z) (cs : list chunk) : Prop :=
 Fixpoint expected_audio (sc : list cmd) : list (list chunk) :=
   match sc with
   | [] => []
-  | CPlay n xs :: r => chunkify n xs :: expected_audio r
+  | CPlay n xs :: r | CPlaySrc n xs :: r => chunkify n xs :: expected_audio r
   | CPlayBad n xs k :: r => firstn k (chunkify n xs) :: expected_audio r   (* the iterable raises: k chunks *)
   | CClose :: _ => []
   | _ :: r => expected_audio r
   end.
 Fixpoint plays (sc : list cmd) : nat :=
-  match sc with [] => 0 | CPlay _ _ :: r | CPlayBad _ _ _ :: r => S (plays r) | _ :: r => plays r end.
+  match sc with [] => 0 | CPlay _ _ :: r | CPlaySrc _ _ :: r | CPlayBad _ _ _ :: r => S (plays r) | _ :: r => plays r end.
 Fixpoint expected_raises (sc : list cmd) : nat :=
   match sc with
   | [] => 0
@@ -151,7 +151,7 @@ Definition after_close_at (s : state) : Prop :=
   (forall i p, get_player s i = Some p -> popen p = false /\ ppc_ p = PDone)   (* streams closed, nobody alive *)
   /\ sterminated s = 1
   /\ sthreads s = []
-  /\ (forall a cr, smpc s = MPlayAcq a cr ->                                         (* a later play raises *)
+  /\ (forall a cr pl, smpc s = MPlayAcq a cr pl ->                                         (* a later play raises *)
        forall s', step s 0 = Some s' -> smpc s' = MPlayRaiseRel /\ splayers s' = splayers s).
 
 Definition stuck (s : state) : Prop := forall tid, step s tid = None.
@@ -170,6 +170,6 @@ Definition closing (s : state) : bool :=
   sfinished s || match smpc s with MCloseAcqH => true | _ => false end.
 Definition pending_audio (s : state) : list (list chunk) :=
   if closing s then []
-  else match smpc s with MPlayAcq a _ => [a] | _ => [] end ++ expected_audio (sscript s).
+  else match smpc s with MPlayAcq a _ _ => [a] | _ => [] end ++ expected_audio (sscript s).
 Definition audio_link (sc0 : list cmd) (s : state) : Prop :=
   expected_audio sc0 = map paudio (splayers s) ++ pending_audio s.
